@@ -15,7 +15,8 @@ RULE = (
     "rounds {advance t by 0-3, reduce some remaining amounts (never below 0), update_PERT_data(t)}; after "
     "initialize and after every round est/eft/lst/lft/critical_path_length are compared (1e-9) with a reference "
     "CPM (topological longest path forward, min over successors backward), slack >= 0 and some head-to-tail path "
-    "has zero slack. (simulation) FS-only models under resource contention: the same comparison at the 'updated' "
+    "has zero slack; a 'rounding' shape (zero-work head, decimal amounts, several branches) makes latest times that "
+    "should be 0 come out as tiny negative numbers. (simulation) FS-only models under resource contention: the same comparison at the 'updated' "
     "phase of every step (the live remaining amounts of the snapshot feed the reference), half of the time after a "
     "backward_simulate (with/without due-time helper tasks) or a warm start on the same objects. Non-trivial = the "
     "critical path length (minus t) changed between two consecutive updates of one workflow; distinct by case hash."
@@ -90,8 +91,15 @@ WORK = [0.0, 0.5, 1.0, 1.0, 2.0, 3.0, 4.0, 6.0]
 @st.composite
 def _standalone(draw, max_n):
     n = draw(st.integers(1, max_n))
-    fm = draw(st.integers(0, 4)) == 0
-    work_s = st.floats(0.0, 20.0, allow_nan=False) if fm else st.sampled_from(WORK)
+    mode = draw(st.integers(0, 7))
+    if mode == 0:
+        work_s = st.floats(0.0, 20.0, allow_nan=False)
+    elif mode <= 2:
+        # decimal amounts: sums and differences round, so that a latest time that should be exactly 0 (or equal to
+        # another one) comes out as a tiny positive or negative number
+        work_s = st.sampled_from([0.0, 0.0, 0.1, 0.2, 0.3, 0.7, 1.1, 2.3])
+    else:
+        work_s = st.sampled_from(WORK)
     work = draw(st.lists(work_s, min_size=n, max_size=n))
     raw = draw(st.lists(st.tuples(st.integers(0, n - 1), st.integers(0, n - 1)), max_size=2 * n)) if n > 1 else []
     edges = sorted(set((min(a, b), max(a, b)) for a, b in raw if a != b))
@@ -106,6 +114,35 @@ def _standalone(draw, max_n):
     return {"kind": "standalone", "work": work, "edges": [list(e) for e in edges], "order": order, "hist": [[dt, fr] for dt, fr in hist]}
 
 
+DEC = [0.1, 0.2, 0.3, 0.6, 0.7, 0.9, 1.1, 1.3, 2.3]
+
+
+@st.composite
+def _rounding(draw):
+    """Zero-work head with a critical and a slack branch, decimal work amounts: the head's correct latest times are 0
+    up to rounding (often a tiny negative number), and a second candidate arrives from the slack branch."""
+    k = draw(st.integers(2, 4))  # branches
+    work = [0.0]
+    edges = []
+    tails = []
+    for b in range(k):
+        ln = draw(st.integers(1, 3))
+        prev = 0
+        for _ in range(ln):
+            work.append(draw(st.sampled_from(DEC)))
+            edges.append([prev, len(work) - 1])
+            prev = len(work) - 1
+        tails.append(prev)
+    if draw(st.booleans()):
+        work.append(draw(st.sampled_from(DEC)))
+        for t in tails:
+            edges.append([t, len(work) - 1])
+    n = len(work)
+    order = list(draw(st.permutations(list(range(n)))))
+    hist = [[draw(st.integers(0, 1)), [0.0] * n] for _ in range(draw(st.integers(1, 2)))]
+    return {"kind": "standalone", "work": work, "edges": edges, "order": order, "hist": hist}
+
+
 CFG_SIM = gen.Cfg(warm=4, due=True, kinds=[0], facilities=False, max_workers=3, min_tasks=2, max_tasks=8, max_time=[40], p_auto=10)
 
 
@@ -116,8 +153,8 @@ def _sim(draw, cfg):
 
 def strategy(tier):
     if tier == "quick":
-        return st.one_of(_standalone(10), _standalone(10), _sim(CFG_SIM))
-    return st.one_of(_standalone(14), _standalone(14), _sim(CFG_SIM.copy(max_tasks=12, max_workers=5, facilities=True)))
+        return st.one_of(_standalone(10), _standalone(10), _sim(CFG_SIM), _rounding())
+    return st.one_of(_standalone(14), _standalone(14), _sim(CFG_SIM.copy(max_tasks=12, max_workers=5, facilities=True)), _rounding())
 
 
 def budget(tier):
